@@ -253,6 +253,29 @@ def check_call(contract, fn, args, kwargs=None, ns=None, exc_classes=None):
                 return "skip"       # the monitor cannot evaluate the clause on this input: no verdict
         if not good:
             return viol("returns", f"ensures `{contract.returns}` is false")
+        if contract.ghost.get("result_fresh") or contract.ghost.get("result_fresh_unless"):
+            # freshness, natively: the result is none of the arguments and a second call does not hand out the same object
+            unless = contract.ghost.get("result_fresh_unless")
+            exempt = False
+            if unless:
+                try:
+                    exempt = bool(eval(compile_expr(unless), env2)) if "compile_expr" in globals() else bool(ev(unless, env2))
+                except Exception:
+                    exempt = True
+            rv = out.value
+            if not exempt and rv is not None and not isinstance(rv, (bool, int, float, str, type)) and not pyspec.is_np(rv):
+                if any(rv is a for a in bound.arguments.values()):
+                    return viol("fresh", "the result is one of the arguments (ghost result_fresh: must be a new object)")
+                try:
+                    with warnings.catch_warnings():
+                        warnings.simplefilter("ignore")
+                        rv2 = fn(*args, **kwargs)
+                    if inspect.isgenerator(rv2):
+                        rv2 = list(rv2)
+                except BaseException:
+                    rv2 = None
+                if rv2 is rv:
+                    return viol("fresh", "two calls returned the very same object (ghost result_fresh: must be a new object each time)")
         if "warns" in contract.ghost:
             want = bool(ev(contract.ghost["warns"], env2))
             got = len([w for w in wlist if issubclass(w.category, RuntimeWarning)])
